@@ -339,6 +339,68 @@ func (fv *funcVerifier) loopCandidates(st *State, mi *modInfo) []candidate {
 					}})
 				}
 			}
+			// weaker variant: objects that existed at FUNCTION entry keep their contents
+			// (survives when the loop writes only to objects allocated by this function)
+			if fe := fv.entry.frontier; fe.S != f0.S {
+				goalE := func(s *State) smt.Term {
+					r := smt.Term{S: "fr_r", Sort: smt.Int}
+					return smt.Forall([]smt.Term{r}, smt.Implies(smt.And(smt.Ge(r, smt.IntLit(0)), smt.Le(r, fe)),
+						smt.Eq(smt.Select(fv.heapGet(s, k), r), smt.Select(fv.heapGet(pre, k), r))))
+				}
+				cands = append(cands, candidate{desc: "entryframe " + k, eval: goalE, frame: true, assumeAt: func(s *State) {
+					fresh := fv.heapGet(s, k)
+					old := fv.heapGet(pre, k)
+					fv.frameFacts = append(fv.frameFacts, frameFact{key: k, fresh: fresh, old: old, f0: fe, guard: s.live})
+					fv.frameAxioms = append(fv.frameAxioms, smt.Implies(s.live, goalE(s)))
+				}})
+			}
+			// weaker variants for map contents: everything except the map one field of a pointer variable in scope refers to
+			if strings.HasPrefix(k, "mapdom:") || strings.HasPrefix(k, "mapval:") || strings.HasPrefix(k, "maplen:") {
+				for _, o := range others {
+					o := o
+					pt, isPtr := o.Type().Underlying().(*types.Pointer)
+					if !isPtr {
+						continue
+					}
+					stt, isSt := pt.Elem().Underlying().(*types.Struct)
+					if !isSt {
+						continue
+					}
+					if _, opaque := opaqueNamed(pt.Elem()); opaque {
+						continue
+					}
+					si := fv.so.structOf(pt.Elem())
+					for fi := 0; fi < stt.NumFields(); fi++ {
+						mt, isMap := stt.Field(fi).Type().Underlying().(*types.Map)
+						if !isMap {
+							continue
+						}
+						d, v, l := fv.mapKeys(mt)
+						if k != d && k != v && k != l {
+							continue
+						}
+						_, sf := si.field(stt.Field(fi).Name())
+						if sf == nil {
+							continue
+						}
+						fkey := fv.so.fieldKey(pt.Elem(), sf.name)
+						fv.regHeap(fkey, smt.Arr(smt.Int, sf.sort))
+						ex := fv.c.Let("exmap", smt.Select(fv.heapGet(pre, fkey), st.vars[o]))
+						desc := "frame " + k + " except " + o.Name() + "." + sf.name
+						goalX := func(s *State) smt.Term {
+							r := smt.Term{S: "fr_r", Sort: smt.Int}
+							return smt.Forall([]smt.Term{r}, smt.Implies(smt.And(smt.Ge(r, smt.IntLit(0)), smt.Le(r, f0), smt.Ne(r, ex)),
+								smt.Eq(smt.Select(fv.heapGet(s, k), r), smt.Select(fv.heapGet(pre, k), r))))
+						}
+						cands = append(cands, candidate{desc: desc, eval: goalX, frame: true, assumeAt: func(s *State) {
+							fresh := fv.heapGet(s, k)
+							old := fv.heapGet(pre, k)
+							fv.frameFacts = append(fv.frameFacts, frameFact{key: k, fresh: fresh, old: old, f0: f0, guard: s.live, except: ex})
+							fv.frameAxioms = append(fv.frameAxioms, smt.Implies(s.live, goalX(s)))
+						}})
+					}
+				}
+			}
 			// weaker variants: everything except the backing array of one slice variable in scope
 			if strings.HasPrefix(k, "mem:") {
 				for _, o := range others {
@@ -489,6 +551,8 @@ func (fv *funcVerifier) execFor(st *State, x *ast.ForStmt, label string) {
 	} else if fv.opt.Variants {
 		variant = fv.autoVariant(x.Cond)
 	}
+	fv.iterSnaps = append(fv.iterSnaps, st.clone())
+	defer func() { fv.iterSnaps = fv.iterSnaps[:len(fv.iterSnaps)-1] }()
 	cond := smt.True
 	if x.Cond != nil {
 		cond = fv.evalExpr(st, x.Cond)
@@ -509,6 +573,7 @@ func (fv *funcVerifier) execFor(st *State, x *ast.ForStmt, label string) {
 		fv.execStmt(body, x.Post, "")
 	}
 	if !body.dead() {
+		fv.assertIteration(body, spec, key, x.Pos())
 		fv.assertLoopInvs(body, spec, pre, "loopinv.step", key, x.Pos())
 		for i, c := range cands {
 			if fv.candEnabled(key, c) {
@@ -730,6 +795,8 @@ func (fv *funcVerifier) execRange(st *State, x *ast.RangeStmt, label string) {
 			}
 		}
 	}
+	fv.iterSnaps = append(fv.iterSnaps, st.clone())
+	defer func() { fv.iterSnaps = fv.iterSnaps[:len(fv.iterSnaps)-1] }()
 	exit := st.clone()
 	switch kind {
 	case "index", "int", "string":
@@ -775,6 +842,7 @@ func (fv *funcVerifier) execRange(st *State, x *ast.RangeStmt, label string) {
 		if kind == "map" && visitedKey.S != "" {
 			body.ghost["visited"] = fv.c.Let("visited", smt.Store(body.ghost["visited"], visitedKey, smt.True))
 		}
+		fv.assertIteration(body, spec, key, x.Pos())
 		fv.assertLoopInvs(body, spec, pre, "loopinv.step", key, x.Pos())
 		for i, c := range cands {
 			if fv.candEnabled(key, c) {
@@ -783,6 +851,16 @@ func (fv *funcVerifier) execRange(st *State, x *ast.RangeStmt, label string) {
 				}
 			}
 		}
+	}
+	if kind == "map" && !exit.dead() {
+		// normal termination of a range over a map that the body did not modify: every key was visited
+		dom, _, _ := fv.mapKeys(mt)
+		fv.instFrames(dom, mapRef)
+		d0 := smt.Select(fv.heapGet(pre, dom), mapRef)
+		d1 := smt.Select(fv.heapGet(exit, dom), mapRef)
+		fv.nQuant++
+		k := smt.Term{S: fmt.Sprintf("vk!%d", fv.nQuant), Sort: fv.so.sortOf(mt.Key())}
+		fv.assume(exit, smt.Implies(smt.Eq(d0, d1), smt.Forall([]smt.Term{k}, smt.Implies(smt.Select(d0, k), smt.Select(exit.ghost["visited"], k)))))
 	}
 	res := fv.mergeAll(exit, frame.breaks)
 	if kind == "map" {
@@ -793,4 +871,16 @@ func (fv *funcVerifier) execRange(st *State, x *ast.RangeStmt, label string) {
 		}
 	}
 	*st = *res
+}
+
+// assertIteration checks the "iteration" clauses of a loop at the end of an
+// arbitrary iteration (normal end of the body and every continue).
+func (fv *funcVerifier) assertIteration(body *State, spec *LoopSpec, key string, pos token.Pos) {
+	if spec == nil || len(spec.Iteration) == 0 {
+		return
+	}
+	env := fv.loopEnv(body)
+	for _, e := range spec.Iteration {
+		fv.assertNoAssume(body, "iteration", key+":"+e.String(), pos, env.evalBool(e))
+	}
 }
